@@ -328,12 +328,44 @@ func checkC06(c *Ctx) {
 	}
 	exprS1(func(_ string, e *E) { evalOne(e.String()) })
 	exprS5(func(_ string, e *E) { evalOne(e.String()) })
-	for _, l := range []string{`'\u12'`, `'ab\u00e'`, `'\u'`, `'\x'`, `'\u00e9'`, `['\u41': 1]`, `'\u12' + 1`} {
+	for _, l := range []string{"'abc\\", "'\\", "1 + 'x\\", "['k\\", `'\u12'`, `'ab\u00e'`, `'\u'`, `'\x'`, `'\u00e9'`, `['\u41': 1]`, `'\u12' + 1`} {
 		evalOne(l)
+	}
+	// (h2) a private template rendered as the entry point, and called: output or error, never a panic
+	for _, attr := range []string{" private=\"true\"", " private=\"false\"", ""} {
+		for _, entry := range []string{"v.p", "v.caller", "v.missing"} {
+			if !c.Mine() {
+				continue
+			}
+			src := "{namespace v}\n/** @param? x */\n{template .p" + attr + "}\n[{$x ?: 'nx'}]\n{/template}\n/** @param? x */\n{template .caller}\n<{call .p data=\"all\"/}>\n{/template}\n"
+			cs := c06case{Kind: "private template", Source: src + " entry " + entry}
+			var out bytes.Buffer
+			var cerr, rerr error
+			v := vrt.Run(vrt.Options{Fuel: 500000}, func() {
+				tofu, err := soy.NewBundle().AddTemplateString("p.soy", src).CompileToTofu()
+				if err != nil {
+					cerr = err
+					return
+				}
+				rerr = tofu.Render(&out, entry, map[string]interface{}{"x": "v"})
+			})
+			obs := fmt.Sprintf("c=%v|r=%v|%s", cerr != nil, rerr != nil, out.String())
+			if v.Panic != nil {
+				obs = "panic"
+			}
+			c.Observe("private\x00"+attr+entry, obs)
+			c.Nontrivial()
+			switch {
+			case v.Exhausted:
+				c.Violate("terminates", "hang", "hang:private entry", cs, "returns", "fuel exhausted in "+v.ExhaustSite)
+			case v.Panic != nil:
+				c.Violate("no Go panic escapes to the caller", "panic", "panic:private entry:"+panicSite(v.PanicStack), cs, "output or error", fmt.Sprintf("panic: %v", v.Panic))
+			}
+		}
 	}
 	// (i) ParseGlobals on every line form
 	lines := []string{"", "// comment", "A = 1", "A=1", " A = 'x' ", "A.B = true", "A = null", "A = 1.5", "A = -1", "A = 0x1F", "A", "= 1", "A = ", "A = 1 2", "A = $x", "A = $x.y", "A = 1 < 'a'",
-		"A = [1, 2]", "A = ['k': 1]", "A = f(1)", "A = length(1)", "A = not", "A = 'unterminated", "A = 1 / 0", "A = 1 % 0", "A = $ij.x", "A = range(1, 2, 0)", "A = -'a'", "A = 1 == 1 == 1", "A = B", "A = 'a' + 1", "A = =", "A = '\\u12'", "A = 'ab\\u00e'", "A = '\\x'", "A = '\\u00e9'", "\x00", "A = \xff", "A = /", "A = 1 /", "A = 1 // c", "A = 'http://x' // c", "A = 'a' +", "A = -", "A = [", "A = 'x' /"}
+		"A = [1, 2]", "A = ['k': 1]", "A = f(1)", "A = length(1)", "A = not", "A = 'unterminated", "A = 1 / 0", "A = 1 % 0", "A = $ij.x", "A = range(1, 2, 0)", "A = -'a'", "A = 1 == 1 == 1", "A = B", "A = 'a' + 1", "A = =", "A = '\\u12'", "A = 'ab\\u00e'", "A = '\\x'", "A = '\\u00e9'", "\x00", "A = \xff", "A = /", "A = 1 /", "A = 1 // c", "A = 'http://x' // c", "A = 'a' +", "A = -", "A = [", "A = 'x' /", "A = 'hello \\", "A = 'C:\\temp\\", "A = '\\", "A = \\"}
 	type gin struct {
 		text   string
 		reader string // "" = whole input at once; "1" = one byte per Read; "7" = seven bytes per Read
